@@ -7,7 +7,8 @@ EXTENDS TeakDispatch, TeakDecode
 
 \* for (i < 3) if (interrupt_pending[i].exchange(false)) ip[i] = 1;  same for the vectored latch
 Latch(s) ==
-    [s EXCEPT !.r.ip = [i \in 1 .. 3 |-> IF s.lat[i] = 1 THEN 1 ELSE s.r.ip[i]],
+    [s EXCEPT !.r.ip = <<IF s.lat[1] = 1 THEN 1 ELSE s.r.ip[1], IF s.lat[2] = 1 THEN 1 ELSE s.r.ip[2],
+                         IF s.lat[3] = 1 THEN 1 ELSE s.r.ip[3]>>,
               !.r.ipv = IF s.lat[4] = 1 THEN 1 ELSE @,
               !.lat = <<0, 0, 0, 0>>]
 
